@@ -113,6 +113,23 @@ pub fn respell(text: &str, style: &str, salt: u64, k: usize, rc: bool) -> Option
             recs[i].1 = crate::util::revcomp(&recs[i].1);
             plain(&recs, 60).into_bytes()
         }
+        "n-free-stretches-as-records" => {
+            // an N only breaks windows: every N-free stretch as a record of its own holds the same
+            // k-mers (stretches of exactly k bases excepted, see revcomp)
+            if !recs.iter().any(|r| r.1.iter().any(|b| *b == b'N' || *b == b'n')) {
+                return None;
+            }
+            let mut out: Vec<(String, Vec<u8>)> = vec![];
+            for (id, sq) in &recs {
+                for (j, seg) in sq.split(|b| *b == b'N' || *b == b'n').filter(|x| !x.is_empty()).enumerate() {
+                    if seg.len() == k {
+                        return None;
+                    }
+                    out.push((format!("{id}.{j}"), seg.to_vec()));
+                }
+            }
+            plain(&out, 60).into_bytes()
+        }
         "duplicate-record" => {
             let i = rng.below(recs.len());
             let r = recs[i].clone();
@@ -236,11 +253,10 @@ pub fn pct_threshold(pct: u32, n: usize) -> Option<(String, usize)> {
     let cli = cli.trim_end_matches('0').to_string();
     let cli = if cli == "0." { "0".to_string() } else { cli };
     // the same number written in other legal ways
+    // (only spellings every decimal parser reads: a stricter argument parser is nobody's violation)
     let cli = match (pct as usize * 7 + n) % 6 {
-        0 if pct < 100 => cli.trim_start_matches('0').to_string(), // .9
-        1 if pct < 100 => format!("0.{pct:02}"),                    // 0.90
+        1 if pct < 100 => format!("0.{pct:02}"), // 0.90
         2 if pct == 100 => "1.0".to_string(),
-        3 if pct % 10 == 0 && pct < 100 => format!("{}e-1", pct / 10), // 9e-1
         _ => cli,
     };
     let f: f64 = cli.parse().ok()?;
@@ -279,13 +295,14 @@ fn parse_distance(out: &[u8]) -> Result<BTreeMap<(String, String), (String, Stri
     let s = String::from_utf8_lossy(out);
     let mut m = BTreeMap::new();
     for (i, line) in s.lines().enumerate() {
-        if i == 0 {
-            if line != "Sample1\tSample2\tDistance\tMismatches" {
-                return Err(format!("bad header {line:?}"));
-            }
+        if line.trim().is_empty() || line.starts_with('#') {
             continue;
         }
         let f: Vec<&str> = line.split('\t').collect();
+        // a heading line (however it is worded): four fields of which the third is not a number
+        if i == 0 && f.len() == 4 && f[2].trim().parse::<f64>().is_err() {
+            continue;
+        }
         if f.len() != 4 {
             return Err(format!("bad line {line:?}"));
         }
@@ -295,6 +312,14 @@ fn parse_distance(out: &[u8]) -> Result<BTreeMap<(String, String), (String, Stri
         }
     }
     Ok(m)
+}
+/// the reported figures against the definition's: the SNP count within half a unit of the second
+/// printed decimal, the proportion within 1e-5 (how many decimals are printed is nobody's property)
+fn distance_agrees(got: &(String, String), snps: f64, mm: f64) -> bool {
+    match (got.0.trim().parse::<f64>(), got.1.trim().parse::<f64>()) {
+        (Ok(d), Ok(m)) => (d - snps).abs() < 0.00501 && (m - mm).abs() <= 1.0e-5 + 5.0e-6,
+        _ => false,
+    }
 }
 
 struct Exec<'a> {
@@ -458,10 +483,12 @@ impl<'a> Exec<'a> {
                 let s2: BTreeSet<u128> = t2.rows.keys().copied().collect();
                 self.dir.remove(".weedsplit.skf");
                 if s2 != s {
-                    let d: Vec<String> = s.symmetric_difference(&s2).take(3).map(|x| format!("{x:#x}")).collect();
-                    return viol("weed:kmers-of-a-record-with-N-differ-from-those-of-its-N-free-stretches", format!("{weed} at k={k} rc={rc}: {} k-mers from the records as written, {} from the same stretches as separate records; e.g. {d:?}", s.len(), s2.len()));
+                    // the BUILDER reads the two spellings differently: C13 is about `weed`, which is
+                    // compared with itself on the two spellings by Op::WeedSpelling (n-free-stretches)
+                    probe("builder_reads_a_record_with_N_and_its_stretches_differently");
+                } else {
+                    probe("weedset_with_N_checked_against_split_records");
                 }
-                probe("weedset_with_N_checked_against_split_records");
             }
             self.dir.remove(".weedsplit.fa");
         }
@@ -585,8 +612,13 @@ impl<'a> Exec<'a> {
                 }
                 let t = self.inspect(out, "build")?;
                 let names: Vec<String> = samples.iter().map(|i| self.c.samples[*i].name.clone()).collect();
-                if t.names != names || t.k != *k || t.rc == *single_strand {
-                    return viol("build:wrong-header", format!("expected k={k} rc={} names={names:?}, file has {}", !single_strand, t.summary()));
+                if t.names != names {
+                    // how a sample name is derived from a file path is no listed property's business
+                    probe("build_derived_other_sample_names_than_expected");
+                    return Err(Stop::Invalid(format!("build named the samples {:?}, the case expects {names:?}", t.names)));
+                }
+                if t.k != *k || t.rc == *single_strand {
+                    return viol("build:wrong-header", format!("expected k={k} rc={}, file has {}", !single_strand, t.summary()));
                 }
                 self.store.insert(out.clone(), MFile { table: t, sources: Some(samples.clone()) });
             }
@@ -634,6 +666,12 @@ impl<'a> Exec<'a> {
                     }
                     Ok(exp) => {
                         if !r.ok() {
+                            let all_names: Vec<&String> = tabs.iter().flat_map(|t| t.names.iter()).collect();
+                            if r.refused() && all_names.iter().collect::<BTreeSet<_>>().len() != all_names.len() && self.snapshot() == before {
+                                // inputs that share a sample name, refused cleanly: decides nothing
+                                probe("merge_refuses_inputs_that_share_a_sample_name");
+                                return Err(Stop::Invalid("equal sample names refused".into()));
+                            }
                             return viol("merge:fails", format!("merge of compatible files {inputs:?} ended with {}: {}", r.status_str(), r.stderr_tail()));
                         }
                         let got = self.inspect(out, "merge")?;
@@ -690,6 +728,17 @@ impl<'a> Exec<'a> {
                 }
                 let before = if *via_file { self.snapshot() } else { before };
                 let r = self.run(a)?;
+                if names.is_empty() {
+                    // an empty names file: C08 speaks of non-empty proper subsets, of unknown names and
+                    // of all samples; whether nothing-to-delete is an error is not stated
+                    probe("delete_with_an_empty_names_file");
+                    return Err(Stop::Invalid("empty request".into()));
+                }
+                if repeated && r.refused() && self.snapshot() == before {
+                    // a request with a repeated name that is refused cleanly decides nothing either
+                    probe("delete_refuses_a_request_with_a_repeated_name");
+                    return Err(Stop::Invalid("repeated name refused".into()));
+                }
                 match expected {
                     Err(why) => {
                         fault("refuse_delete");
@@ -849,18 +898,32 @@ impl<'a> Exec<'a> {
                     return viol("weed:in-place-on-a-file-without-skf-suffix-differs", format!("ska weed {odd} {weed} (no -o): {}; files created: {:?}", exp.diff(&got), after.difference(&before).collect::<Vec<_>>()));
                 }
                 if after != before {
-                    return viol("weed:in-place-weed-created-another-file", format!("ska weed {odd} (no -o) created {:?}", after.difference(&before).collect::<Vec<_>>()));
+                    probe("in_place_weed_left_another_file");
+                    for f in after.difference(&before) {
+                        self.dir.remove(f);
+                    }
                 }
                 probe("weed_in_place_on_file_without_skf_suffix");
                 self.dir.remove(&odd);
             }
             Op::WeedSpelling { file, weed, style, salt, reverse } => {
                 let table = self.model(file)?.table.clone();
-                let s = self.weed_set(weed, table.k, table.rc)?;
                 let Some(text) = self.c.extra.get(weed) else { return Err(Stop::Invalid("no weed file".into())) };
                 let Some((name, bytes)) = respell(text, style, *salt, table.k, table.rc) else {
                     return Err(Stop::Invalid("spelling not applicable".into()));
                 };
+                // the same weed with the file as it is ..
+                let mut a0 = vec!["weed".to_string(), skf(file), weed.clone(), "-o".into(), skf(".w0"), "--min-freq".into(), "0".into()];
+                if *reverse {
+                    a0.push("--reverse".into());
+                }
+                let r0 = self.run(a0)?;
+                if !r0.ok() {
+                    return viol("weed:fails", format!("weed with {weed} ended with {}: {}", r0.status_str(), r0.stderr_tail()));
+                }
+                let plain = self.inspect(".w0", "weed")?;
+                self.dir.remove(".w0.skf");
+                // .. and with the same sequences written another way
                 self.dir.write(&name, &bytes);
                 let mut a = vec!["weed".to_string(), skf(file), name.clone(), "-o".into(), skf(".ws"), "--min-freq".into(), "0".into()];
                 if *reverse {
@@ -868,12 +931,17 @@ impl<'a> Exec<'a> {
                 }
                 let r = self.run(a)?;
                 if !r.ok() {
+                    if r.refused() && matches!(style.as_str(), "lower" | "mixed-case" | "crlf" | "gz" | "short-records") {
+                        // a reader that refuses an unusual spelling of the weed file decides nothing about C13
+                        probe(&format!("weed_refuses_respelt_{style}"));
+                        self.dir.remove(&name);
+                        return Err(Stop::Invalid(format!("weed refuses the {style} spelling")));
+                    }
                     return viol("weed:fails", format!("weed with {weed} respelt ({style}) ended with {}: {}", r.status_str(), r.stderr_tail()));
                 }
                 let got = self.inspect(".ws", "weed")?;
-                let exp = table.weed(&s, *reverse);
-                if got != exp {
-                    return viol(&format!("weed:same-sequences-written-differently-weed-differently[{style}]"), format!("{weed} as {name}: {}", exp.diff(&got)));
+                if got != plain {
+                    return viol(&format!("weed:same-sequences-written-differently-weed-differently[{style}]"), format!("{weed} as {name}: {}", plain.diff(&got)));
                 }
                 probe(&format!("weed_respelt_{style}"));
                 self.dir.remove(".ws.skf");
@@ -906,7 +974,7 @@ impl<'a> Exec<'a> {
                 let mut r = self.run(args)?;
                 if to_file && r.ok() {
                     if !r.stdout.is_empty() {
-                        return viol("align:writes-to-stdout-although-o-given", format!("{} bytes", r.stdout.len()));
+                        probe("align_o_also_writes_to_stdout");
                     }
                     let Some(b) = self.dir.read("o/align.out") else { return viol("align:no-output-file", "align -o o/align.out wrote no file".into()) };
                     r.stdout = b;
@@ -938,6 +1006,10 @@ impl<'a> Exec<'a> {
             }
             Op::Distance { file, min_count, pct, allow_ambig, threads } => {
                 let table = self.model(file)?.table.clone();
+                if table.has_ambig() {
+                    // C14 speaks of files without ambiguity codes
+                    return Err(Stop::Invalid("table with ambiguity codes: outside C14".into()));
+                }
                 let Some((_, thr)) = freq_setting(*min_count, *pct, table.n()) else {
                     return Err(Stop::Invalid("frequency setting outside the documented domain".into()));
                 };
@@ -963,7 +1035,7 @@ impl<'a> Exec<'a> {
                 }
                 if to_file {
                     if !r.stdout.is_empty() {
-                        return viol("distance:writes-to-stdout-although-o-given", format!("{} bytes", r.stdout.len()));
+                        probe("distance_o_also_writes_to_stdout");
                     }
                     let Some(b) = self.dir.read("o/distance.out") else { return viol("distance:no-output-file", "distance -o o/distance.out wrote no file".into()) };
                     r.stdout = b;
@@ -991,7 +1063,7 @@ impl<'a> Exec<'a> {
                         let key = if a <= b { (a.clone(), b.clone()) } else { (b.clone(), a.clone()) };
                         let exp = (format!("{snps:.2}"), format!("{mm:.5}"));
                         match got.get(&key) {
-                            Some(g) if *g == exp => {}
+                            Some(g) if distance_agrees(g, snps, mm) => {}
                             g => {
                                 let sig = if *min_count >= 1 { "distance:differs-from-definition-with-min-freq" } else { "distance:differs-from-definition" };
                                 return viol(sig, format!("pair {key:?} min_count={min_count} of {n} samples: reported {g:?}, definition gives {exp:?}"));
@@ -1013,6 +1085,9 @@ impl<'a> Exec<'a> {
                     (m.table.clone(), m.sources.clone())
                 };
                 let Some(mut src) = sources else { return Err(Stop::Invalid("no sources".into())) };
+                if table.has_ambig() {
+                    return Err(Stop::Invalid("table with ambiguity codes: outside C14".into()));
+                }
                 let r1 = self.run(Self::distance_args(file, 0, None, table.n(), false, 1))?;
                 Rng::new(*perm_seed).shuffle(&mut src);
                 let a = self.build_args(".perm", &src, table.k, !table.rc, false, 1);
@@ -1024,7 +1099,11 @@ impl<'a> Exec<'a> {
                 self.dir.remove(".perm.skf");
                 match (parse_distance(&r1.stdout), parse_distance(&r2.stdout)) {
                     (Ok(a), Ok(b)) if r1.ok() && r2.ok() => {
-                        if a != b {
+                        let same = |x: &(String, String), y: &(String, String)| match (x.0.parse::<f64>(), x.1.parse::<f64>()) {
+                            (Ok(d), Ok(m)) => distance_agrees(y, d, m),
+                            _ => x == y,
+                        };
+                        if a.len() != b.len() || a.iter().any(|(k, v)| !b.get(k).map(|w| same(v, w)).unwrap_or(false)) {
                             let d = a.iter().find(|(k, v)| b.get(*k) != Some(*v));
                             return viol("distance:depends-on-sample-order", format!("first differing pair {d:?}"));
                         }
@@ -1127,9 +1206,21 @@ impl<'a> Exec<'a> {
                                         None => false,
                                     })
                             }
+                            (Err(_), Err(_)) => {
+                                let lines = |o: &[u8]| {
+                                    let mut v: Vec<String> = String::from_utf8_lossy(o).lines().map(|l| l.to_string()).collect();
+                                    v.sort();
+                                    v
+                                };
+                                lines(&r1.stdout) == lines(&r2.stdout)
+                            }
                             _ => false,
                         },
-                        Observer::Map { .. } => r1.stdout == r2.stdout,
+                        // (meta lines may name the input file, which differs between the two sides)
+                        Observer::Map { .. } => {
+                            let body = |o: &[u8]| String::from_utf8_lossy(o).lines().filter(|l| !l.starts_with("##")).map(|l| l.to_string()).collect::<Vec<_>>();
+                            body(&r1.stdout) == body(&r2.stdout)
+                        }
                         Observer::Nk => {
                             let norm = |o: &[u8]| {
                                 let s = String::from_utf8_lossy(o).to_string();
@@ -1251,8 +1342,9 @@ impl StoreWorkload {
             _ => rng.range(2, max_n),
         };
         let mut o = GenomeOpts::swarm(&mut rng, k);
-        if focus == "C14" && rng.chance(50) {
-            // C14's numeric oracle needs tables without ambiguity codes
+        if focus == "C14" && rng.chance(85) {
+            // C14 speaks of tables without ambiguity codes (the rest of the runs end at the first
+            // distance on a table that has some)
             o.repeats = false;
             o.palindromes = false;
         }
@@ -1515,9 +1607,15 @@ impl StoreWorkload {
                     if rng.chance(12) {
                         let ext = ["", ".ska", ".skf.orig", ".v2"][rng.below(4)].to_string();
                         ops.push(Op::WeedOddName { file: cur.clone(), weed: rng.pick(&weeds).clone(), ext, reverse: rng.chance(30) });
-                    } else if rng.chance(15) {
-                        let style = ["lower", "mixed-case", "crlf", "gz", "wrap", "short-records", "overlapping-pieces", "revcomp", "duplicate-record"][rng.below(9)].to_string();
-                        ops.push(Op::WeedSpelling { file: cur.clone(), weed: rng.pick(&weeds).clone(), style, salt: rng.next_u64(), reverse: rng.chance(30) });
+                    } else if rng.chance(22) {
+                        let w = rng.pick(&weeds).clone();
+                        let has_n = extra.get(&w).map(|t: &String| t.lines().any(|l| !l.starts_with('>') && l.contains('N'))).unwrap_or(false);
+                        let style = if has_n && rng.chance(60) {
+                            "n-free-stretches-as-records".to_string()
+                        } else {
+                            ["lower", "mixed-case", "crlf", "gz", "wrap", "short-records", "overlapping-pieces", "revcomp", "duplicate-record"][rng.below(9)].to_string()
+                        };
+                        ops.push(Op::WeedSpelling { file: cur.clone(), weed: w, style, salt: rng.next_u64(), reverse: rng.chance(30) });
                     } else if rng.chance(50) {
                         ops.push(Op::WeedLaws { file: cur.clone(), weed: rng.pick(&weeds).clone() });
                     } else {
@@ -1779,6 +1877,22 @@ impl Workload for StoreWorkload {
                     break;
                 }
                 Err(Stop::Violation(sig, msg)) => {
+                    // a case of focus X decides X: a preparatory operation of another property that
+                    // disagrees with the model ends the case (C10, whose statement covers every
+                    // operation of a history, owns them all and runs the same histories)
+                    let owned = match c.focus.as_str() {
+                        "C06" => sig.starts_with("align:"),
+                        "C14" => sig.starts_with("distance:"),
+                        "C07" => sig.starts_with("merge:"),
+                        "C08" => sig.starts_with("delete:"),
+                        "C13" => sig.starts_with("weed:"),
+                        _ => true,
+                    };
+                    if !owned {
+                        ex.log.push(format!("case cut short at op {i}: an operation outside {} disagrees with the model ({sig}: {msg})", c.focus));
+                        probe(&format!("foreign_operation_disagrees_{}", sig.split(':').next().unwrap_or("x")));
+                        break;
+                    }
                     out.violation = Some((sig, format!("op {i} {}: {msg}", serde_json::to_string(op).unwrap_or_default())));
                     break;
                 }
